@@ -127,6 +127,22 @@ func c03CommitOrder(c *Ctx) {
 		c.R.Cond(ok, rule, name+": "+calleeLabel(call)+" after PUT", c.P.Pos(call.Pos()),
 			"runs only after the version PUT succeeded", "a request that retires/overwrites versions can run before the new version exists: "+why)
 	}
+	// once the version PUT succeeded the commit is published: no error may be reported after it
+	ne := 0
+	for _, b := range fn.Blocks {
+		ret, ok := b.Instrs[len(b.Instrs)-1].(*ssa.Return)
+		if !ok || an.IsNilConst(an.RetErr(ret)) {
+			continue
+		}
+		if after, _ := an.SuccessDominates(put, ret); after {
+			ne++
+			c.R.Bad(rule, fmt.Sprintf("%s: no failure after the commit point #%d", name, ne), c.P.Pos(ret.Pos()),
+				"Commit can return an error after the version PUT succeeded: the caller (xSync) rolls back locally while the bucket already holds the transaction as the current version")
+		}
+	}
+	if ne == 0 {
+		c.R.OK(rule, name+": no failure after the commit point", pos, "no error return is reachable once the version PUT succeeded")
+	}
 	// every nil-error return: after PUT success, or on a path that issued no mutating request
 	muts := mutatingCalls(c, fn)
 	n := 0
@@ -1064,4 +1080,12 @@ func valueDerivesFrom(v ssa.Value, addedV, removedV ssa.Value, depth int) bool {
 		}
 	}
 	return false
+}
+
+func init() {
+	register(&Rule{Name: "C03.open-errors", Min: 20, Run: func(c *Ctx) {
+		errorsRule(c, "C03.open-errors", func(pos string) bool { return strings.HasPrefix(pos, "kv/kv.go:") })
+	}, Doc: "no storage error is dropped in the kv layer (open, merge, commit): a version is skipped only under its NoSuchKey / skipUnreadable guards"})
+	byProp["C03"] = append(byProp["C03"], "C03.open-errors")
+	explain["C03"] += " open-errors: the error discipline of C14 restricted to kv/kv.go — an opener may leave a listed version out only on a well-formed NoSuchKey (every swallow edge is dominated by that test), never because a transient fault on one location was forgotten."
 }
